@@ -78,12 +78,17 @@ def conditions(tier):
         # split by the rows (0 contig, 1 gap, 2 contig, 3 beyond the end) that the first piece's two ends fall in: 10 regions cover 1 <= a0 <= b0
         def _r(x, k):
             return [f"{x} <= l0_0", f"l0_0 < {x} <= l0_0 + g0_1", f"l0_0 + g0_1 < {x} <= l0_0 + g0_1 + l0_2", f"{x} > l0_0 + g0_1 + l0_2"][k]
+        HEAVY = {(0, 0), (0, 2), (2, 2), (2, 3)}     # these first-piece regions alone exceed the budget cap: split again by the row the second piece starts in
         for i0 in range(4):
             for j0 in range(i0, 4):
-                n = f"arb2_FGF_r{i0}{j0}_" + sfx((), ps)
-                t.append((f"two_arbitrary_pieces_FGF_one_group_r{i0}{j0}_" + sfx((), ps),
-                          gen_arbitrary(n, [("S1", "FGF")], [(0, "S1"), (0, "S1")], sym_strands=False, pstrands=ps, body="gaps_any", region=[_r("a0", i0), _r("b0", j0)]), n, 3000,
-                          f"input F G F, two ARBITRARY pieces in one Pretext scaffold (strands {ps}); the first piece starts in row {i0} and ends in row {j0} (0 contig, 1 gap, 2 contig, 3 beyond): the 10 row pairs cover every first piece; the second piece is unrestricted"))
+                for i1 in (range(4) if (i0, j0) in HEAVY else (None,)):
+                    tag = f"r{i0}{j0}" + ("" if i1 is None else f"s{i1}")
+                    n = f"arb2_FGF_{tag}_" + sfx((), ps)
+                    reg = [_r("a0", i0), _r("b0", j0)] + ([] if i1 is None else [_r("a1", i1)])
+                    t.append((f"two_arbitrary_pieces_FGF_one_group_{tag}_" + sfx((), ps),
+                              gen_arbitrary(n, [("S1", "FGF")], [(0, "S1"), (0, "S1")], sym_strands=False, pstrands=ps, body="gaps_any", region=reg), n, 3000,
+                              f"input F G F, two ARBITRARY pieces in one Pretext scaffold (strands {ps}); the first piece starts in row {i0} and ends in row {j0} (0 contig, 1 gap, 2 contig, 3 beyond): the 10 row pairs cover every first piece; "
+                              + ("the second piece is unrestricted" if i1 is None else f"the second piece starts in row {i1} (the four rows cover every second piece)")))
     for ps in ((1, 1, 1), (1, -1, 1), (-1, -1, -1)):
         n = "m2_FGF_1g_" + sfx((), ps)
         t.append(("two_cuts_FGF_one_group_" + sfx((), ps), _m(n, [("S1", "FGF")], ((2,), [(0, 0, 0), (0, 0, 2), (0, 0, 1)]), False, ps), n, 9000,
